@@ -9,7 +9,8 @@ import random
 import core
 
 KINDS_ADD = {"S1": ("addSec", 1), "M1": ("addMin", 1), "H1": ("addHour", 1), "D1": ("addDay", 1),
-             "D31": ("addDay", 31), "D365": ("addDay", 365), "B1": ("addSec", -1), "S3661": ("addSec", 3661)}
+             "D31": ("addDay", 31), "D365": ("addDay", 365), "B1": ("addSec", -1), "S3661": ("addSec", 3661),
+             "DM1": ("addDay", -1), "DMD": ("addDay", None)}      # None: minus the day of the month of the state
 DAYMS = 86400000
 
 
@@ -75,6 +76,8 @@ def replay(cases):
             u = ObsTime(sc["dt"][0], sc["dt"][1], sc["dt"][2], *sc["f"])
             if k in KINDS_ADD:
                 fn, nb = KINDS_ADD[k]
+                if nb is None:
+                    nb = -d
                 try:
                     r = getattr(t, fn)(nb)
                     altk = {tuple(sc["dt"]): 0, tuple(sc["nx"]): 1}
